@@ -20,10 +20,10 @@ PID = "C18"
 WORKDIR = os.path.join(vlib.WORK, "C18", "run")
 THEOREMS = ["startup_total", "startup_total_data", "damaged_is_replaced", "stale_never_trusted", "crash_prefix_sound",
             "lock_excludes", "concurrent_starts_agree", "concurrent_starts_progress",
-            "lock_is_necessary", "make_cache_rewrites_damaged", "data_concurrent_answers_agree", "data_concurrent_except_known"]
-# exactly one of each pair compiles: the first while the recorded defect is in the source, the second once it is repaired
-ALTERNATIVES = [("data_concurrent_refuted", "data_concurrent_starts_agree", "C18-F2"),
-                ("disabled_reference_refuted", "cache_transparent", "C18-F1")]
+            "lock_is_necessary", "make_cache_rewrites_damaged", "data_concurrent_answers_agree", "data_concurrent_except_known",
+            "data_concurrent_starts_agree", "cache_transparent",
+            # the two repaired defects as statements about a hypothetical configuration (premises are not vacuous)
+            "handler_remove_guard_is_necessary", "disabled_branch_must_load_completely"]
 NKEYS = 4
 SOLO = [0, 1, 3, 4, 5, 0, 5, 1, 3, 6]
 
@@ -162,14 +162,47 @@ def gen_cases(tier, rng, ref, classes):
                ("stale-poisoned", {"kind": "named", "name": "stale-poisoned"}, {"kind": "named", "name": "stale-poisoned"}),
                ("quick-damaged-data-valid", {"kind": "prefix", "len": qs - 1}, valid),
                ("quick-valid-data-damaged", valid, {"kind": "prefix", "len": ds - 1})]
-    rounds = 4 if tier == "thorough" else 1
+    rounds = 6 if tier == "thorough" else 1
     for r in range(rounds):
         for n in (2, 4, 8, 16):
             for j, (lab, q, d) in enumerate(damaged):
                 if tier != "thorough" and j >= 2 and not (n == 2 and j in (2, 3)) and not (n == 4 and j in (4, 5)):
                     continue
                 add(f"{n} processes started together", q, d, n=n, nkeys=NKEYS, start_state=lab, then_start=True, then_key=r % NKEYS)
+    # D: the cache folder named by SPSDK_CACHE_FOLDER does not exist yet (cold start incl. creation of the directory)
+    for n in ((1, 2, 4, 8, 16) if tier == "thorough" else (1, 4, 8)):
+        for _ in range(3 if tier == "thorough" else 1):
+            add("cache folder does not exist yet", missing, missing, n=n, nkeys=NKEYS, nodir=True, start_state="no-folder",
+                then_start=True, then_key=n % NKEYS)
     return cases
+
+
+def oracle_configs(cfg, refans):
+    """a cache written under one configuration of the restricted-data / addons folders is not trusted under another:
+    every start answers as the cache-disabled start of ITS OWN configuration.  Yields (signature, message, replay)."""
+    dis = cfg["disabled"]
+    for name in ("A", "B"):
+        if not dis[name].get("ok"):
+            yield (f"config:{name}:disabled-start-crash:{dis[name].get('crash')}",
+                   f"cache-disabled start under configuration {name} dies with {dis[name].get('crash')} at {dis[name].get('where')}", dis[name])
+    if dis["A"].get("answers") == dis["B"].get("answers"):
+        yield ("config:indistinguishable", "the two configurations give the same answers: the scenario tests nothing", dis)
+    for sw in cfg["switch"]:
+        lab = f"{sw['first']}->{sw['second']}:n={sw['n']}"
+        want = dis[sw["second"]].get("answers", {})
+        if not sw["writer"].get("ok"):
+            yield (f"config:{lab}:writer-crash", f"cold start under {sw['first']} fails: {sw['writer'].get('crash')}", sw)
+        for i, r in enumerate(sw["results"] + [sw["again"]]):
+            who = "later start" if i == len(sw["results"]) else f"process {i + 1}/{sw['n']}"
+            if not r.get("ok"):
+                yield (f"config:{sw['first']}->{sw['second']}:start-crash:{r.get('crash')}",
+                       f"{who} under configuration {sw['second']} on a cache written under {sw['first']} dies with {r.get('crash')} at {r.get('where')}", sw)
+                continue
+            for qn, v in r["answers"].items():
+                if qn != "c:schema" and v != want.get(qn):
+                    yield (f"config:{sw['first']}->{sw['second']}:trusted-foreign-cache:{qn}",
+                           f"{who} under configuration {sw['second']} (restricted/addons folders {'set' if sw['second'] == 'B' else 'unset'}) on a cache "
+                           f"written under {sw['first']} answers {qn} = {v!r}; with the cache disabled it answers {want.get(qn)!r}", sw)
 
 
 # ------------------------------------------------------------------ spec oracles (independent of the Coq model)
@@ -183,7 +216,10 @@ def oracle_start(case, res, refans):
         if not r.get("ok"):
             where = (r.get("where") or "").split(":")
             fn = where[1] if len(where) > 1 else "?"
-            if tag:
+            if case.get("nodir"):
+                yield (f"no-folder:start-crash:{fn}:{r.get('crash')}",
+                       f"process {i + 1}/{n} started with a not yet existing SPSDK_CACHE_FOLDER dies with {r.get('crash')} at {r.get('where')} ({r.get('msg', '')[:80]})")
+            elif tag:
                 yield (f"{tag}:{r.get('crash')}", f"replayed schedule: process dies with {r.get('crash')} at {r.get('where')}")
             else:
                 yield (f"start-crash:{fn}:{r.get('crash')}:n={n}",
@@ -207,6 +243,8 @@ def oracle_start(case, res, refans):
                    f"after {n} normal start(s) on [{init}] the {which} cache is left {fin}")
         if n == 1 and bad_before and fin["state"] == "missing" and all(r.get("ok") for r in res["results"]) and which == "quick":
             yield (f"not-rebuilt:{which}", f"after a start on [{init}] no quick-info cache was written")
+        if case.get("nodir") and fin["state"] == "missing" and all(r.get("ok") for r in res["results"]):
+            yield (f"no-folder:not-created:{which}", f"{n} start(s) with a not yet existing SPSDK_CACHE_FOLDER left no {which} cache")
     if "after" in res:
         r = res["after"]
         want = refans[case.get("then_key", 0)]
@@ -314,21 +352,7 @@ def run(tier):
     # (P)
     model_ok, mout = vlib.coq_make(["Model/CacheModel.vo"])
     ok_build, bout = vlib.coq_make(["Proofs/CacheProofs.vo"])
-    alt_state = {}
     theorems = list(THEOREMS)
-    if ok_build:
-        for defect, full, fid in ALTERNATIVES:
-            okd, outd = vlib.coqc(f"Props/{PID}/{defect}.v")
-            okf, outf = vlib.coqc(f"Props/{PID}/{full}.v")
-            alt_state[fid] = (okd, okf)
-            if okf and not okd:
-                theorems.append(full)
-                vlib.log(f"  [{fid}] the recorded defect is no longer in the source: {full} holds")
-            elif okd and not okf:
-                theorems.append(defect)
-            else:
-                theorems += [defect, full]      # both or none: reported as a broken obligation below
-                rep.obligation(f"theorem-pair:{defect}|{full}", False, (outd + outf)[-1500:])
     vlib.check_theorems(rep, PID, theorems, ["Proofs/CacheProofs.vo"])
     vlib.audit(rep)
     ident = table["ident"] if table else {}
@@ -385,6 +409,11 @@ def run(tier):
                         {"kind": "schedule-replay", "case": replay_case, "result": replay["results"],
                          "model_schedule": "[(0,Exists);(1,Exists);(0,Acquire);(0,ReadAll);(0,Release);(1,Acquire);(1,ReadAll);(1,Release);"
                                            "(0,Exists);(1,Exists);(0,Remove);(1,Remove)]"})
+    switches = [["A", "B", 1], ["B", "A", 1], ["A", "B", 4], ["B", "A", 4]] + ([["A", "B", 16], ["B", "A", 8], ["A", "A", 2], ["B", "B", 2]] if thorough else [])
+    cfg = vlib.run_impl("c18_impl.py", {"mode": "configs", "work": WORKDIR, "switches": switches}, timeout=3000, extra_env=env)
+    for sig, msg, rp in oracle_configs(cfg, refans):
+        rep.failing(sig, msg, {"kind": "configuration-switch", "detail": rp,
+                               "how": "tools/impl/c18_impl.py mode=configs (SPSDK_RESTRICTED_DATA_FOLDER / SPSDK_ADDONS_DATA_FOLDER point at generated folders)"})
     nviol = 0
     for c, r in zip(cases, res):
         for sig, msg in oracle_start(c, r, refans):
@@ -431,7 +460,7 @@ def run(tier):
     # random schedules of the model (search for a failing schedule; on the unchanged tree only the recorded race shows up)
     exn_ids = [ident[n] for n in sorted(classes) if "Exception" in classes[n]] if classes else [1]
     fnf = ident.get("FileNotFoundError", 0)
-    nsched = 1500 if thorough else 260
+    nsched = 3000 if thorough else 260
     sched_meta = []
     for k in range(nsched):
         path = "quick" if k % 2 == 0 else "data"
@@ -497,11 +526,6 @@ def run(tier):
         every_prefix(rep, ref, env, ident)
     else:
         every_prefix(rep, ref, env, ident, stride=97)
-    # the known-finding alternatives must be in step with what the real code showed
-    for fid, (okd, okf) in alt_state.items():
-        shown = any(f["id"] == fid for f in rep.findings) and fid in rep.known_hits
-        if okd and not okf and not shown:
-            rep.obligation(f"finding-in-step:{fid}", False, "the refutation theorem compiles but the real code did not show the witness")
     # coverage
     streams = {}
     for c, r in zip(cases, res):
@@ -520,6 +544,10 @@ def run(tier):
                    len({json.dumps(m[6]) for m in meta if m[0] == "sched"}),
                    samples=[{"path": m[1], "processes": m[2], "schedule_head": m[6][:12]} for m in meta if m[0] == "sched"][:2])
     rep.add_stream("schedule replay on the real code", 1, 1, samples=[replay_case])
+    rep.add_stream("cache written under another configuration of restricted/addons folders", sum(2 + sw["n"] for sw in cfg["switch"]) + 2,
+                   len({json.dumps(r.get("answers"), sort_keys=True) for sw in cfg["switch"] for r in sw["results"] + [sw["again"], sw["writer"]]}),
+                   samples=[{"first": sw["first"], "second": sw["second"], "n": sw["n"], "answers_of_second": sw["again"].get("answers"),
+                             "cache_disabled_answers": cfg["disabled"][sw["second"]].get("answers")} for sw in cfg["switch"][:1]])
     vlib.log(f"  real process starts and classifications took {round(time.time() - t0, 1)} s; {len(cases)} cases, {nviol} oracle hits, "
              f"{nmodel} model evaluations")
     return finish(rep, tier)
